@@ -31,19 +31,28 @@ def _abbrev(scene):
 def run(ctx):
     vlib.build(["vbuild"])
     q = ctx.quick
-    if q:
+    small = os.environ.get("VERIF_C09_SMALL")      # mutation demonstrations on a loaded machine: fewer scenes
+    if q and small:
+        scenes = solids.make_scenes(ctx.seed, 12, 3, 3, grid_n=7)
+        noracle, ngrid, nshard = 4, 7, 6
+    elif q:
         scenes = solids.make_scenes(ctx.seed, 30, 6, 8, grid_n=9)
-        nshard = 8
+        noracle, ngrid, nshard = 10, 9, 8
     else:
         scenes = solids.make_scenes(ctx.seed, 800, 100, 100, grid_n=17)
+        noracle, ngrid, nshard = 150, 17, 14
+    # oracle-decided family (outside the lattice vocabulary; expectation computed by the harness)
+    for i in range(noracle):
+        s = solids.oracle_scene(ctx.seed * 31 + i, len(scenes), ngrid)
+        scenes.append(s)
+    if not q:
         solids.sample_slabs(scenes, 9, ctx.seed)
-        nshard = 14
     by_id = {s["id"]: s for s in scenes}
 
     # design check of the vocabulary, concurrently with the binding
     pool = cf.ThreadPoolExecutor(max_workers=1)
-    mc = pool.submit(lambda: vlib.tlc("SolidsMC", "SolidsMC" if q else "SolidsMC_big", workers=4 if q else 8,
-                                      timeout=3000, heap="6g"))
+    mc = pool.submit(lambda: vlib.tlc("SolidsMC", "SolidsMC_tiny" if small else "SolidsMC" if q else "SolidsMC_big",
+                                      workers=4 if q else 8, timeout=3000, heap="6g"))
 
     # interleave families over the shards so that they cost about the same
     shards = [scenes[i::nshard] for i in range(nshard)]
@@ -71,6 +80,7 @@ def run(ctx):
 
     total = {}
     nviol = 0
+    devs = {}
     for i, r in enumerate(results):
         sp, out = files[i]
         m = re.search(r'<<"SUMMARY", "(.*)">>', r.out)
@@ -93,7 +103,11 @@ def run(ctx):
             rp = ctx.path("scene_%d.json" % sid)
             with open(rp, "w") as fh:
                 json.dump(scene, fh)
-            if clause == "C09.ConstructionSucceeds":
+            if clause == "C09.OraclePointInVolume":
+                what = ("scene %d (%s, seed %d) [oracle-decided]: %d+ probe point(s) farther than 1e-5 from every face are "
+                        "reported in a volume other than the one given by the analytic membership functions; first: %s"
+                        % (sid, scene["family"], scene["seed"], len(notes), json.dumps(notes[:3])))
+            elif clause == "C09.ConstructionSucceeds":
                 what = ("scene %d (%s, seed %d): construction through the public API threw: %s"
                         % (sid, scene["family"], scene["seed"], notes[0]))
             else:
@@ -101,6 +115,29 @@ def run(ctx):
                         "volume; first: %s (p2 = 2 x coordinates)"
                         % (sid, scene["family"], scene["seed"], len(notes), json.dumps(notes[:3])))
             ctx.violation(what, tags={"clause": clause, "family": scene["family"].split(":")[0]}, files=[rp, out])
+        for d in summ.get("dev", []):
+            devs.setdefault(d[0], []).append((d[1], d[2]))
+
+    for dname, where in sorted(devs.items()):
+        sid, note = where[0]
+        ppipeds = [m["obj"]["c"] for m in by_id[sid]["units"][0]["materials"] if m["obj"]["c"]["k"] == "ppiped"
+                   and m["obj"]["c"]["alpha"] != 0]
+        rp = ctx.path("scene_%d.json" % sid)
+        with open(rp, "w") as fh:
+            json.dump(by_id[sid], fh)
+        if dname == "ParallelepipedAlphaYExtent":
+            what = ("[oracle-decided] %d probe point(s) in %d scene(s) lie inside a parallelepiped with alpha != 0 by its "
+                    "documented definition (y faces at +-hy: 'half-lengths of the projections of the edges on X, Y, Z', "
+                    "= G4Para) but are reported outside; the reports agree with y faces at +-hy*cos(alpha)"
+                    % (total.get("oracle_deviation", 0), len(where)))
+        else:
+            ppipeds = [m["obj"]["c"] for m in by_id[sid]["units"][0]["materials"] if m["obj"]["c"]["k"] == "ppiped"]
+            what = ("[oracle-decided] %d probe point(s) in %d scene(s) lie inside a parallelepiped (alpha or theta != 0) but "
+                    "outside the exterior bounding box the implementation attaches to it (+-(a+b+c) with b = hy(sin a, cos a, 0), "
+                    "c = hz(sin t cos p, sin t sin p, cos t) instead of the true edge vectors), and are reported outside"
+                    % (total.get("oracle_deviation_bbox", 0), len(where)))
+        ctx.violation(what + ". First: scene %d %s, parallelepipeds %s" % (sid, json.dumps(note), json.dumps(ppipeds[:2])),
+                      tags={"deviation": dname}, files=[rp])
 
     r = mc.result()
     if r.code != 0:
@@ -121,7 +158,7 @@ def run(ctx):
     compared = total.get("compared", 0)
     ctx.coverage.update({
         "programs": total.get("built", 0),
-        "disagreements_checked": compared,
+        "disagreements_checked": compared + total.get("oracle_compared", 0),
         "samples": [_abbrev(scenes[0]), _abbrev(scenes[-1])],
         "states": r.distinct, "transitions": r.generated,
         "evaluations": total.get("probes", 0),
@@ -141,6 +178,13 @@ def run(ctx):
         "init_failed_reports": total.get("init_failed", 0),
         "fully_classified_slab": {"probes": total.get("slab_probes", 0), "near_surface": total.get("slab_near", 0)},
         "disagreements": total.get("bad", 0), "scenes_with_violations": nviol,
+        "oracle_decided": {"scenes": total.get("oracle_scenes", 0), "probes": total.get("oracle_probes", 0),
+                           "compared": total.get("oracle_compared", 0), "excluded_near_face": total.get("oracle_near", 0),
+                           "disagreements": total.get("oracle_bad", 0),
+                           "named_deviation_hits": {"ParallelepipedAlphaYExtent": total.get("oracle_deviation", 0),
+                                                    "ParallelepipedBBoxTooSmall": total.get("oracle_deviation_bbox", 0)},
+                           "what": "regular prisms n=3..8 with any orientation, parallelepipeds, general rotations: "
+                                   "analytic membership functions in harness/vbuild.cc (documented definitions), facts in the trace"},
         "traces_validated_against_impl": len(jobs),
         "design_check": "SolidsMC (%s): %d distinct states, %d transitions; invariants DeMorgan Subtraction "
                         "TransformRoundTrip TransformCompose Homogeneous Alternatives NearIsZero + ASSUME Count48 Orthogonal"
@@ -154,6 +198,8 @@ def run(ctx):
         "labels: materials are given unique labels, the runtime reports label@unit; reading the label of "
         "OrangeTrackView::volume_id() after initialisation with direction +z is the observation",
         "tolerance Tolerance<>::from_relative(1e-8, 1); perturbations are +-0.5 and +-2 x rel x max(1,|v|)",
-        "not in the lattice vocabulary (not checked): regular prisms with n != 4 or rotated, parallelepipeds, "
-        "general rotations, involutes, rectangular arrays",
+        "oracle-decided (labelled): regular prisms with n != 4 or rotated, parallelepipeds and general rotations are "
+        "compared with analytic membership functions written in the harness from the documented definitions; "
+        "TLC only compares the two labels",
+        "not checked: involutes, rectangular arrays, twisted prisms under general rotations",
     ]
